@@ -179,6 +179,16 @@ theorem loop_tail_waits_for_nobody (fx : Fix) (s : St) (i : Nat) (y : Handler) (
   · intro h1; simp [act, hy, h1]
   · intro h1 h2; simp [act, hy, h1, h2]
 
+/-- **a start-up that failed leaves Running() open**: when Run has returned the error of its RunHandlers call, `running` is
+    not closed (and never will be by that Run); the router still counts as started for the re-entry guard -/
+theorem failed_run_leaves_running_open (s : St) (h : Reach (sys allFixed) s) (hf : s.run = .failed) :
+    s.running = false ∧ s.isRunning = true ∧ act allFixed s .runRunning = none := by
+  have hrun := reach_run allFixed rfl s h
+  refine ⟨?_, hrun.r1.mpr (by rw [hf]; simp), by simp [act, hf]⟩
+  cases hr : s.running with
+  | false => rfl
+  | true => rcases hrun.r3 hr with h1 | h1 | h1 <;> rw [hf] at h1 <;> cases h1
+
 /-- **a second Run returns an error**: from the first Run call on, a Run call only counts an error return and changes
     nothing else -/
 theorem second_run_errors (s : St) (h : Reach (sys allFixed) s) (hr : s.run ≠ .idle) :
